@@ -154,7 +154,7 @@ class Stream:
             else:
                 n = 2 if nparts == 1 else 1
                 w = 1
-            if big and len(pc) > 5000:
+            if big and len(pc) > 9000:
                 n = -(-len(pc) // 1400)          # a huge piece: as many weight-4 cells as 4 KiB reads need
             n = max(1, min(n, len(pc))) if len(pc) else 0
             if n:
